@@ -169,6 +169,21 @@ CLAIMS["C15"] = dict(
          "every leaf, and compares the implementation's second cast, base64 decoding, semi-strict bool and colon removal with the models.",
     note=TRUST + "partial: the typed resource models are validated by pydantic-core, which is trusted; their round trip is checked on the implementation only.")
 
+CLAIMS["C06"] = dict(
+    technique="Lean 4 proof over a table of write sites regenerated from the source on every run (translator) + histories of API calls on shared objects with deep snapshots (correspondence), thread stress as testing",
+    text="harness/effects.py extracts every mutating statement of pycfmodel/**/*.py with the kind of object it writes through "
+         "(created by the function itself / a parameter / the receiver / class- or module-level) and, for functions writing through a "
+         "parameter, what each caller passes there; Generated/Effects.lean holds the table. C06_sites (decide +kernel on the table): every "
+         "write lands on an object the call created or on the evaluator cache. C06_frame / C06_repeatable / C06_interleave: hence any "
+         "sequence of steps of any calls, in any interleaving, leaves arguments, receiver and library-level state unchanged and every call "
+         "returns what it returns first thing; C06_cache_invisible: the lazily built evaluator never changes a result; C06_pop_breaks: the "
+         "repaired extra_params.pop is judged observable. The check runs random histories over shared templates / extra_params / contexts / "
+         "receivers with type-sensitive deep snapshots before and after every call, compares each result with the same call made first "
+         "thing in an equal fresh world, and requires new result objects.",
+    note=TRUST + "partial: the extraction is syntactic (aliases it can not follow are judged shared, so a harmless rewrite can re-open the proof); "
+                 "writes made inside pydantic-core or the standard library are not extracted and are covered by the snapshots only; real thread "
+                 "scheduling is exercised by the stress run (testing), the theorem covers interleavings of the model's steps.")
+
 for _k in os.environ.get("VERIF_UNCLAIMED", "").split(","):
     CLAIMS.pop(_k, None)  # in progress: not claimed until its theorems exist
 
